@@ -108,6 +108,7 @@ RecordsOK == l > Len(ObsLog) \/ RecOK(ObsLog[l])
 Failed(rec) ==
   IF ~("e" \in DOMAIN rec /\ rec.e = "Batch" /\ Fields \subseteq DOMAIN rec) THEN {"Fields"}
   ELSE IF ~Shape(rec) THEN {"Shape"}
+  ELSE IF ~Progress(rec) THEN {"Progress"}    \* (the other counts of an unfinished batch are not comparable)
   ELSE {c \in {"Progress", "Exclusion", "NoLostUpdate", "Quiescent", "TryShared"} :
           \/ c = "Progress" /\ ~Progress(rec)
           \/ c = "Exclusion" /\ ~Exclusion(rec)
